@@ -300,7 +300,9 @@ def _cff_charstring(contours, width=None):
                 pen.curveTo((c1[0], c1[1]), (c2[0], c2[1]), (e[0], e[1]))
                 i += 3
         pen.closePath()
-    return pen.getCharString()
+    # masters of a variable build must keep one operator per segment (no specialisation: it merges collinear
+    # segments differently in each master and makes otherwise compatible masters incompatible)
+    return pen.getCharString(optimize=False)
 
 
 def _decomposed(g, shapes, comps):
